@@ -101,6 +101,10 @@ structure Watcher where
   fn : Caller
   names : List String
   precedence : Int
+  /-- identity of the Watcher object of an explicit `param.watch(bound method)` registration: two registrations
+  with identical arguments are two objects (the batched dispatch recognises a watcher by identity); 0 for the
+  watchers whose caller is a `functools.partial`, which its `pid` identifies already -/
+  wid : Nat := 0
   deriving DecidableEq, Repr
 
 /-- a per-instance Parameter copy (the attributes that can be edited here) -/
@@ -592,13 +596,14 @@ def doWatch (w : World) (o : Nat) (ps : List String) (target : Nat) (cb : String
   match w.objs[o]?, w.objs[target]? with
   | some _, some t =>
     if ((w.cls? t).map (·.hasAttr cb)).getD false then
-      .ok (w.addWatcher { inst := o, fn := { kind := .bound, owner := target, method := cb, changed := Option.none, pid := 0 },
-                          names := ps, precedence := 0 })
+      .ok (({ w with nextPid := w.nextPid + 1 }).addWatcher
+        { inst := o, fn := { kind := .bound, owner := target, method := cb, changed := Option.none, pid := 0 },
+          names := ps, precedence := 0, wid := w.nextPid })
     else .error .unsupported
   | _, _ => .error .unsupported
 
 /-- one assignment inside a batch: store, rebuild dependencies, and *queue* — every watcher of the parameter
-that sees a change is queued once (`any(watcher is w ..)`; equal records are one object here, see `noDupB`),
+that sees a change is queued once (`any(watcher is w ..)`: a Watcher record is one object, see `Watcher.wid`),
 the event is recorded under the parameter's name -/
 def updateOne (w : World) (o : Nat) (c : ClassDef) (p : String) (a : Arg)
     (evs : List (String × Val × Val)) (queued : List Watcher) :
@@ -661,8 +666,8 @@ def doWatchSlot (w : World) (o : Nat) (p : String) (target : Nat) (cb : String) 
   | some pc, some t =>
     if ((w.cls? t).map (·.hasAttr cb)).getD false then
       let wt : Watcher := { inst := o, fn := { kind := .bound, owner := target, method := cb, changed := Option.none, pid := 0 },
-                            names := [p], precedence := 0 }
-      .ok (w.setObj o fun ob => { ob with pcopies := insert ob.pcopies p { pc with swatchers := pc.swatchers ++ [wt] } })
+                            names := [p], precedence := 0, wid := w.nextPid }
+      .ok (({ w with nextPid := w.nextPid + 1 }).setObj o fun ob => { ob with pcopies := insert ob.pcopies p { pc with swatchers := pc.swatchers ++ [wt] } })
     else .error .unsupported
   | _, _ => .error .unsupported
 
@@ -719,7 +724,7 @@ def renCaller (no np : Nat) (c : Caller) : Caller :=
            callback := c.callback.map fun cb => (no + cb.1, cb.2) }
 
 def renWatcher (no np : Nat) (wt : Watcher) : Watcher :=
-  { wt with inst := no + wt.inst, fn := renCaller no np wt.fn }
+  { wt with inst := no + wt.inst, fn := renCaller no np wt.fn, wid := np + wt.wid }
 
 def renPCopy (no nc np : Nat) (pc : PCopy) : PCopy :=
   { pc with slots := pc.slots.map (fun s => (nc + s.1, nc + s.2)),
